@@ -101,6 +101,11 @@ func (db *Backend) ListBucket(name string, prefix *gofakes3.Prefix, page gofakes
 	var cnt int64 = 0
 
 	var lastMatchedPart string
+	if page.HasMarker && prefix.HasDelimiter {
+		// A page that ends on a common prefix hands the prefix itself back as
+		// NextMarker; the keys it rolls up must not produce it again:
+		lastMatchedPart = page.Marker
+	}
 
 	for iter.Next() {
 		item := iter.Value().(*bucketObject)
@@ -128,6 +133,9 @@ func (db *Backend) ListBucket(name string, prefix *gofakes3.Prefix, page gofakes
 		cnt++
 		if page.MaxKeys > 0 && cnt >= page.MaxKeys {
 			response.NextMarker = item.data.name
+			if match.CommonPrefix {
+				response.NextMarker = match.MatchedPart
+			}
 			response.IsTruncated = iter.Next()
 			break
 		}
